@@ -1029,6 +1029,8 @@ date_interval_t date_parser_t::parse()
       tok = lexer.next_token();
       if (tok.kind == lexer_t::token_t::TOK_INT) {
         int quantity = boost::get<unsigned short>(*tok.value);
+        if (quantity == 0)
+          throw_(date_error, _("A repeating period must be at least one unit long"));
         tok = lexer.next_token();
         switch (tok.kind) {
         case lexer_t::token_t::TOK_YEARS:
